@@ -1008,8 +1008,15 @@ static int32_t s_pstm_add(const pstm_int *a, const pstm_int *b, pstm_int *c)
         c->dp[x]   = (pstm_digit) t;
         t        >>= DIGIT_BIT;
     }
-    if (t != 0 && x < PSTM_MAX_SIZE)
+    if (t != 0)
     {
+        if (x >= PSTM_MAX_SIZE)
+        {
+            /* The sum needs PSTM_MAX_SIZE + 1 digits: report it instead of
+               silently dropping the carry. */
+            pstm_clamp(c);
+            return PS_LIMIT_FAIL;
+        }
         if (c->used == c->alloc)
         {
             if (pstm_grow(c, c->alloc + 1) != PSTM_OKAY)
@@ -1227,8 +1234,15 @@ static int32_t pstm_mul_2d(const pstm_int *a, int16_t b, pstm_int *c)
             carry = carrytmp;
         }
         /* store last carry if room */
-        if (carry && x < PSTM_MAX_SIZE)
+        if (carry)
         {
+            if (x >= PSTM_MAX_SIZE)
+            {
+                /* The result needs PSTM_MAX_SIZE + 1 digits: report it
+                   instead of silently dropping the carry. */
+                pstm_clamp(c);
+                return PS_LIMIT_FAIL;
+            }
             if (c->used == c->alloc)
             {
                 if (pstm_grow(c, c->alloc + 1) != PSTM_OKAY)
